@@ -306,8 +306,11 @@ def policies(tier: str) -> list[Policy]:
     if tier == "thorough":
         import itertools
 
-        for ev, ids, sp, rp, en, fr in itertools.product(["lru", "highest"], ["zero", "alternate"], ["last-sep", "first-part", "none"], ["use", "alternate"], ["lazy", "redundant"], ["per-statement", "empty-and-options"]):
-            out.append(Policy(evict=ev, ids=ids, split=sp, repeats=rp, entries=en, framing=fr))
+        # the full product of the producer's choices (4 x 3 x 3 x 3 x 3 x 4 x 2 = 2592 policies)
+        for ev, ids, sp, rp, en, fr, dl in itertools.product(["lru", "fifo", "highest", "lowest-unpinned"], ["zero", "explicit", "alternate"], ["last-sep", "first-part", "none"], ["use", "never", "alternate"], ["lazy", "redundant", "early"], ["one", "per-row", "per-statement", "empty-and-options"], [True, False]):
+            if not dl and fr != "one":
+                continue  # a non-delimited stream is a single frame
+            out.append(Policy(evict=ev, ids=ids, split=sp, repeats=rp, entries=en, framing=fr, delimited=dl))
     seen = set()
     uniq = []
     for p in out:
